@@ -101,3 +101,22 @@ Proof.
   - apply andb_true_iff in Hm as [Hh Hi]. apply negb_true_iff in Hi.
     exact (proj2 (P2 (k_cfg k) (k_hist k) Hh Hi Hnew Hundo Hwf Hab)).
 Qed.
+
+(* the input-level filter of c01_wild_first_le_partial lies inside it too *)
+Definition c01_wild_first_le_thm_scope (k : fk_case) : bool :=
+  c01_wild_disc_thm_scope k && not_under_first_b (k_cfg k) (k_hist k) &&
+  match k_mode k with LExcl r0 | LIncl r0 => lib_weak_coh_b r0 (k_hist k) | LNone => true end.
+
+Lemma c01_wild_first_le_thm_scope_sub k : c01_wild_first_le_thm_scope k = true -> c01_wild_thm_scope k = true.
+Proof.
+  unfold c01_wild_first_le_thm_scope, c01_wild_thm_scope. intros H. apply andb_true_iff in H as [H Hc]. apply andb_true_iff in H as [Hd Hab].
+  rewrite Hd. cbn [andb].
+  unfold c01_wild_disc_thm_scope, filt_nu in Hd.
+  apply andb_true_iff in Hd as [H Hm]. apply andb_true_iff in H as [Hf Hwf]. apply andb_true_iff in Hf as [Hnew Hundo].
+  destruct c01_wild_first_le_proved as [P1 P2].
+  destruct (k_mode k) as [r0|r0|] eqn:Em.
+  - apply negb_true_iff, N.eqb_neq in Hm. exact (proj2 (P1 (k_cfg k) r0 (LExcl r0) (k_hist k) (or_introl eq_refl) Hnew Hundo Hwf Hm Hab Hc)).
+  - apply negb_true_iff, N.eqb_neq in Hm. exact (proj2 (P1 (k_cfg k) r0 (LIncl r0) (k_hist k) (or_intror eq_refl) Hnew Hundo Hwf Hm Hab Hc)).
+  - apply andb_true_iff in Hm as [Hh Hi]. apply negb_true_iff in Hi.
+    exact (proj2 (P2 (k_cfg k) (k_hist k) Hh Hi Hnew Hundo Hwf Hab)).
+Qed.
